@@ -194,6 +194,7 @@ def run(pid, tier, seed, scratch, t0):
             extraction=extraction,
             known_findings=[k['what'] for _, _, k in known_hits],
             undecided=undecided,
+            open_obligations=sorted(set(x for r in results for x in r.get('open_obligations', []))),
             explanation=plan.PLAN[pid].get('explanation', ''),
         ),
         assumptions=sorted(set(plan.PLAN[pid].get('assumptions', []))),
